@@ -49,7 +49,19 @@ def facts_of(F, fn, raw=False):
                 args = [R(a) for a in c.args]
                 out["calls"].append("%s(%s)" % (short, ", ".join(args)))
                 if (c.fn or "").endswith("IntoIterator::into_iter") and "Range" in (c.full or ""):
-                    out["ranges"].append(R(c.args[0]))
+                    if raw:
+                        out["ranges"].append(R(c.args[0]))
+                    else:
+                        # a bound chosen between two constants by one test shows as that conditional expression
+                        with body.alpha(args=True):
+                            rs = nz(body.sname(c.args[0], 12))
+                            am = dict(body._alpha)
+                        for l, nm in am.items():
+                            if isinstance(l, int) and re.search(re.escape(nm) + r"\b", rs):
+                                sel = lib.sel_consts(body, l)
+                                if sel is not None:
+                                    rs = re.sub(re.escape(nm) + r"\b", lambda m_: sel, rs)
+                        out["ranges"].append(rs)
                 for a in c.args:
                     k = lib._const_bytes_through(body, a)
                     if k is not None:
@@ -86,7 +98,7 @@ TABLE = [
     ("alg2.rev3", "PasswordAlgorithm::compute_file_encryption_key_r4", "conds", r"^Ge\(arg1\.revision,3\)$", 2, "Algorithm 2(h,i): revision 3 or greater"),
     ("alg2.keylen-16", "PasswordAlgorithm::compute_file_encryption_key_r4", "conds", r"^Gt\((?:\$\d+|arg\d+),16\)$", 1, "Algorithm 2(i): at most 16 bytes of the hash"),
     ("alg3.md5-50", "PasswordAlgorithm::authenticate_owner_password_r4", "ranges", r"^Range::Range\{0,50\}$", 1, "Algorithm 3(c)/7: 50 further MD5 rounds"),
-    ("alg7.rc4-19-down", "PasswordAlgorithm::authenticate_owner_password_r4", "ranges", r"^rev\(new\(1,19\)\)$", 1, "Algorithm 7(b): RC4 with keys XOR 19 down to 1"),
+    ("alg7.rc4-19-down", "PasswordAlgorithm::authenticate_owner_password_r4", "ranges", r"^rev\(new\((1,19|0,sel\(19 if Ge\(arg1\.revision,3\) else 0\))\)\)$", 1, "Algorithm 7(b): RC4 with keys XOR 19 down to 1 (followed by the plain key, which is counter 0: 19 down to 0 for revision 3 or greater, 0 alone otherwise)"),
     ("alg7.rev3", "PasswordAlgorithm::recover_user_password_r4", "conds", r"^Ge\(arg1\.revision,3\)$", 3, "Algorithm 3(c),(d) / 7(b): the 50 MD5 rounds, the key length and the 19 RC4 passes each depend on revision 3 or greater"),
     ("alg7.pad-32", "PasswordAlgorithm::recover_user_password_r4", "calls", r"^update\(.+, index\(.+,RangeTo::RangeTo\{min\(len\(.+\),32\)\}\)\)$", 1, "Algorithm 3(a)/7(a): the first min(len, 32) bytes of the owner password are hashed"),
     ("alg7.pad-rest", "PasswordAlgorithm::recover_user_password_r4", "calls", r"^update\(.+, index\(.+RangeTo::RangeTo\{Sub\(32,min\(len\(.+\),32\)\)\}\)\)$", 1, "Algorithm 3(a)/7(a): followed by the first 32 - len bytes of the padding string"),
@@ -107,6 +119,7 @@ TABLE = [
     ("alg2b.64-rounds", "PasswordAlgorithm::compute_hash", "conds", r"^Ge\(next\(.*RangeFrom::RangeFrom\{1\}\)\)@Some\.0,64\)$", 1, "Algorithm 2.B(e,f): at least 64 rounds"),
     ("alg2b.exit-le", "PasswordAlgorithm::compute_hash", "conds", r"^Le\(.*last\(.* as u32,Sub\(next\(.*RangeFrom::RangeFrom\{1\}\)\)@Some\.0,32\)\)$", 1, "Algorithm 2.B(f): stop when the last byte of E is <= round - 32 (less than or EQUAL)"),
     ("alg2b.64-copies", "PasswordAlgorithm::compute_hash", "ranges", r"^Range::Range\{0,64\}$", 1, "Algorithm 2.B(a): 64 repetitions of password || K || user key"),
+    ("alg2b.k1-user-key", "PasswordAlgorithm::compute_hash", "calls", r"^extend_from_slice\(\$\d+, arg\d+@Some\.0\)$", 1, "Algorithm 2.B(a): K1 is password || K || the 48-byte user key when the owner values are computed"),
     ("alg2b.key-iv", "PasswordAlgorithm::compute_hash", "calls", r"RangeFrom::RangeFrom\{16\}", 1, "Algorithm 2.B(b): key = K[0..16], IV = K[16..32]"),
     ("alg2b.first16", "PasswordAlgorithm::compute_hash", "calls", r"^index\((?:\$\d+|arg\d+), RangeTo::RangeTo\{16\}\)$", 1, "Algorithm 2.B(c): the first 16 bytes of E"),
     ("alg11.truncate-127", "PasswordAlgorithm::authenticate_user_password_r6", "conds", r"^Gt\(len\(.+\),127\)$", 1, "Algorithm 11: truncate to 127 bytes"),
@@ -215,7 +228,7 @@ def identity_only_by_name(ctx, F, R="R-TABLE"):
     nid = 0
     for q in sorted(F.reach([F.fn("EncryptionState::get_stream_filter").path, F.fn("EncryptionState::get_string_filter").path])):
         qb = F.bodies[q]
-        if not qb.file.endswith("encryption.rs"):
+        if "encryption" not in qb.file:          # src/encryption.rs and the modules below it
             continue
         for c in qb.calls:
             if re.search(r"sync::Arc::<.*IdentityCryptFilter.*>::new$|sync::Arc::<T>::new$", c.fn or "") and "IdentityCryptFilter" in (c.full or ""):
@@ -411,6 +424,10 @@ def run(ctx):
                 % ((sd[0], sd[2][:120]) if sd else ("none", "none")))
     revision_dispatch(ctx, F)
     password_truncation(ctx, F)
+    # 7.6.3.2 / 7.6.5: which objects are exempt (the cross-reference stream, an unencrypted Metadata stream, Identity-filtered
+    # streams) is decided the same way when encrypting and when decrypting
+    import prop_c05
+    prop_c05.sibling(ctx, F, "encryption::encrypt_object", "encryption::decrypt_object", "object")
     revision_not_version(ctx, F)
     nsr = set_before_read(ctx, F, "<EncryptionState as TryFrom>::try_from")
     ctx.floor("R-ORDER", "method calls on the PasswordAlgorithm under construction", nsr, 4)
